@@ -318,6 +318,10 @@ def cyclic_inputs(ctx, vh, quick, log):
             deps = [f"l{L + 1}_{v}" for v in range(3)] if L + 1 < layers else []
             src += fx(f"l{L}_{w}", deps)
     cases["diamond_layers_12x3"] = {"conftest.py": src, "test_x.py": "def test_x(l0_0):\n    pass\n"}
+    lad = HDR
+    for i in range(40):
+        lad += fx(f"a{i}", [f"b{i}", f"c{i}"]) + fx(f"b{i}", [f"a{i + 1}"]) + fx(f"c{i}", [f"a{i + 1}"])
+    cases["diamond_ladder_40"] = {"conftest.py": lad + fx("a40"), "test_x.py": "def test_x(a0):\n    pass\n"}
     chain = [f"h{i}" for i in range(500)]
     cases["chain_500"] = {"conftest.py": HDR + "".join(fx(chain[i], [chain[i + 1]] if i + 1 < 500 else []) for i in range(500)),
                           "test_x.py": "def test_x(h0):\n    pass\n"}
